@@ -173,13 +173,17 @@ func setField(route string, str string, isID bool, m *sse.Message) (err error, p
 			ty = sse.Type(str)
 		}
 	case "text":
+		// the decoders own what they keep: the caller's buffer is reused afterwards (a read buffer, sql.RawBytes)
+		buf := []byte(str)
+		defer scribble(buf)
 		if isID {
-			err = id.UnmarshalText([]byte(str))
+			err = id.UnmarshalText(buf)
 		} else {
-			err = ty.UnmarshalText([]byte(str))
+			err = ty.UnmarshalText(buf)
 		}
 	case "json":
 		doc, _ := json.Marshal(str)
+		defer scribble(doc)
 		if isID {
 			err = id.UnmarshalJSON(doc)
 		} else {
@@ -192,10 +196,12 @@ func setField(route string, str string, isID bool, m *sse.Message) (err error, p
 			err = ty.Scan(str)
 		}
 	case "scan_b":
+		buf := []byte(str)
+		defer scribble(buf)
 		if isID {
-			err = id.Scan([]byte(str))
+			err = id.Scan(buf)
 		} else {
-			err = ty.Scan([]byte(str))
+			err = ty.Scan(buf)
 		}
 	case "header":
 		r := httptest.NewRequest(http.MethodGet, "http://verif.invalid/", http.NoBody)
@@ -214,6 +220,12 @@ func setField(route string, str string, isID bool, m *sse.Message) (err error, p
 		m.Type = ty
 	}
 	return
+}
+
+func scribble(b []byte) {
+	for i := range b {
+		b[i] = '\n'
+	}
 }
 
 func applyOps(t *byteTable, b *msBeh) *applied {
@@ -300,6 +312,27 @@ func (w *faultWriter) Write(p []byte) (int, error) {
 	w.calls = append(w.calls, wcall{len(p), len(p), false})
 	return len(p), nil
 }
+
+// richWriter is the same destination offering the optional interfaces an encoder may prefer (io.ByteWriter,
+// io.StringWriter): whatever route the bytes take, the count WriteTo returns is what the destination accepted.
+type richWriter struct{ *faultWriter }
+
+func (w richWriter) WriteByte(c byte) error {
+	fw := w.faultWriter
+	if fw.failed {
+		fw.after++
+	}
+	if fw.failAt == len(fw.calls)+1 {
+		fw.calls = append(fw.calls, wcall{1, 0, true}) // a failed WriteByte has not written its byte
+		fw.failed = true
+		return errBoom
+	}
+	fw.got.WriteByte(c)
+	fw.calls = append(fw.calls, wcall{1, 1, false})
+	return nil
+}
+
+func (w richWriter) WriteString(s string) (int, error) { return w.faultWriter.Write([]byte(s)) }
 
 type msCases struct {
 	mu sync.Mutex
@@ -483,6 +516,32 @@ func cmdMessage(args []string) {
 				}
 				if emit {
 					cases.add(map[string]any{"kind": "writes", "msg": want, "writes": free.calls, "n": int64(len(s)), "err": false, "prefix": true})
+				}
+				// the same under a destination that also is an io.ByteWriter / io.StringWriter
+				freeR := &faultWriter{}
+				nfree, efree := m.WriteTo(richWriter{freeR})
+				if efree != nil || nfree != int64(len(s)) || freeR.got.String() != s {
+					res.violate(fmt.Sprintf("message %d: WriteTo to a ByteWriter/StringWriter destination wrote %q, returned (%d, %v), encoding %q  [ops: %s]", i+1, freeR.got.String(), nfree, efree, s, opsStr()), "message:accounting-rich", det(nil))
+				}
+				for k := 1; k <= len(freeR.calls); k++ {
+					l := freeR.calls[k-1].Len
+					for _, acc := range []int{0, l / 2} {
+						if acc >= l && l > 0 {
+							continue
+						}
+						acc := acc
+						fw := &faultWriter{failAt: k, accept: func(int) int { return acc }}
+						nn, err := m.WriteTo(richWriter{fw})
+						res.eval(1)
+						prefix := strings.HasPrefix(s, fw.got.String())
+						if !errors.Is(err, errBoom) || nn != int64(fw.got.Len()) || fw.after != 0 || !prefix {
+							res.violate(fmt.Sprintf("message %d (ByteWriter/StringWriter destination): call %d of %d failed: WriteTo returned (%d, %v), writer holds %d bytes, %d calls after the failure, prefix=%v  [ops: %s]",
+								i+1, k, len(freeR.calls), nn, err, fw.got.Len(), fw.after, prefix, opsStr()), "message:accounting-rich", det(map[string]any{"fail_at": k, "accepted": acc}))
+						}
+						if l == 0 {
+							break
+						}
+					}
 				}
 			}
 		}
